@@ -9,6 +9,7 @@ Init == st = Init0 /\ nenv = 0 /\ nlife = 0
 CreateServer(s) == nenv < MaxEnv /\ CanCreateServer(st, s) /\ st' = DoCreateServer(st, s) /\ nenv' = nenv + 1 /\ UNCHANGED nlife
 DeleteServer(s) == nenv < MaxEnv /\ CanDeleteServer(st, s) /\ st' = DoDeleteServer(st, s) /\ nenv' = nenv + 1 /\ UNCHANGED nlife
 CreateInst(s, i, v) == nenv < MaxEnv /\ CanCreateInst(st, s, i) /\ st' = DoCreateInst(st, s, i, v) /\ nenv' = nenv + 1 /\ UNCHANGED nlife
+SetInst(s, i, v) == nenv < MaxEnv /\ InnerWD /\ CanSetInst(st, s, i) /\ st.zi[s][i] # v /\ st' = DoSetInst(st, s, i, v) /\ nenv' = nenv + 1 /\ UNCHANGED nlife
 DeleteInst(s, i) == nenv < MaxEnv /\ CanDeleteInst(st, s, i) /\ st' = DoDeleteInst(st, s, i) /\ nenv' = nenv + 1 /\ UNCHANGED nlife
 Deliver == CanDeliver(st) /\ st' = DoDeliver(st) /\ UNCHANGED <<nenv, nlife>>
 Stop == nlife < MaxLife /\ CanStop(st) /\ st' = DoStop(st) /\ nlife' = nlife + 1 /\ UNCHANGED nenv
@@ -17,6 +18,7 @@ Start == CanStart(st) /\ st' = DoStart(st) /\ UNCHANGED <<nenv, nlife>>
 Next == \/ \E s \in Srv : CreateServer(s)
         \/ \E s \in Srv : DeleteServer(s)
         \/ \E s \in Srv, i \in Ins, v \in Vals : CreateInst(s, i, v)
+        \/ \E s \in Srv, i \in Ins, v \in Vals : SetInst(s, i, v)
         \/ \E s \in Srv, i \in Ins : DeleteInst(s, i)
         \/ Deliver \/ Stop \/ Start
 Spec == Init /\ [][Next]_vars
@@ -36,6 +38,11 @@ InvArmed == Settled => st.oarmed
 InvDirs == Settled => \A s \in Srv : st.fd[s] => st.zs[s]
 InvBackedExact == Settled => \A s \in Srv : (st.zs[s] /\ st.fd[s] /\ ArmedOn(st, s) # {}) =>
                      \A i \in Ins : (st.ff[s][i] # 0) = (st.zi[s][i] # 0)
+(* with watch_data a mirrored file under a watched server is also CURRENT *)
+InvBackedFresh == (Settled /\ InnerWD) => \A s \in Srv : (st.zs[s] /\ st.fd[s] /\ ArmedOn(st, s) # {}) =>
+                     \A i \in Ins : st.ff[s][i] # 0 => (st.ff[s][i] = st.zi[s][i] /\ DArmedOn(st, s, i) # {})
+InvBackedNoExtra == Settled => \A s \in Srv : (st.zs[s] /\ st.fd[s] /\ ArmedOn(st, s) # {}) =>
+                     \A i \in Ins : st.ff[s][i] # 0 => st.zi[s][i] # 0
 InvOneWatch == \A s \in Srv : Cardinality({w \in st.iw : w.s = s}) <= 1
 InvFilesInDirs == \A s \in Srv : ~st.fd[s] => st.ff[s] = NoInst
 (* EXPECTED TO FAIL: the mirror process can be killed by its own callback *)
